@@ -516,6 +516,41 @@ def run_gather_bounded(ctx):
             ok = r[0] == "G" and len(r[1]) == 1 and _same(r[1][0], want) and len(r[2]) == 1 and r[2][0][0] == "x" and _same(r[2][0][1], want)
             if not ok and len(bad) < 3:
                 bad.append(("multi-step", repr(want)[:120], repr(r)[:200]))
+    # multi-step construction, plain values: successive calls on ONE plan (same scope, and inside plan.scope) pass values that are EQUAL but
+    # not the same (True / 1 / 1.0, -0.0 / 0.0, two equal tuples / frozensets / strings built separately); every call must receive the very
+    # object it was given - direct evaluation would hand over exactly that object (its type and identity are observable by the callee)
+    plan = uberjob.Plan()
+
+    def h(*a, **k):
+        return ("H", a, tuple(k.items()))
+
+    one = 1
+    groups = [[1, True, 1.0], [0.0, -0.0, False, 0], [(one, 2), tuple([one, 2])], [frozenset([one]), frozenset([one, one])], ["ab", "".join(["a", "b"])], [None, None]]
+    steps = []
+    for scoped in (False, True):
+        for grp in groups:
+            for v in grp:
+                if scoped:
+                    with plan.scope("sc"):
+                        steps.append((plan.call(h, v, k=v), v))
+                        steps.append((plan.call(h, [v, (v,)]), v))
+                else:
+                    steps.append((plan.call(h, v, k=v), v))
+                    steps.append((plan.call(h, [v, (v,)]), v))
+    for c, v in steps:
+        try:
+            r = uberjob.run(plan, output=c, max_workers=1, progress=None)
+        except Exception as e:  # noqa: BLE001
+            r = ("raised", repr(e))
+        checked += 1
+        if r[0] == "H" and len(r[1]) == 1 and isinstance(r[1][0], list):
+            got_vs = [r[1][0][0], r[1][0][1][0]] if len(r[1][0]) == 2 and isinstance(r[1][0][1], tuple) and len(r[1][0][1]) == 1 else ["<shape>"]
+        elif r[0] == "H" and len(r[1]) == 1 and len(r[2]) == 1:
+            got_vs = [r[1][0], r[2][0][1]]
+        else:
+            got_vs = ["<shape>"]
+        if not all(x is v for x in got_vs) and len(bad) < 3:
+            bad.append(("equal-but-distinct plain values", repr(v), type(v).__name__, repr(r)[:200]))
     ctx.check("bounded/every-call-received-exactly-the-substituted-arguments(order,names,identity,shape)", bool(not bad), info=f"{checked} runs; first mismatches: {bad}")
     ctx.check("bounded/nontrivial-number-of-cases", bool(checked > 300), info=str(checked))
     return "ok"
@@ -523,7 +558,8 @@ def run_gather_bounded(ctx):
 
 unit("plumbing.gather-roundtrip[bounded:depth<=2]", props=["C02"],
      functions=[(PL, "Plan._gather"), (PL, "Plan.call"), (GR, "get_argument_nodes"), (BI, "gather_list"), (BI, "gather_dict")],
-     assumptions=["bounded stand-in: argument trees of depth <= 2, width <= 2"], min_obligations=2, kind="bounded")(run_gather_bounded)
+     assumptions=["bounded stand-in: argument trees of depth <= 2, width <= 2; six groups of equal-but-distinct plain values passed by successive calls on one plan"],
+     min_obligations=2, kind="bounded")(run_gather_bounded)
 
 
 def run_call_admission(ctx):
